@@ -20,6 +20,9 @@ Accept(t) == LET r == TLog[t] IN
    /\ Clause(t, "isin-filled-is-membership", \A k \in 1..Len(r.isinf) : r.isinf[k][2] = (r.isinf[k][1] \in ToSet(r.f1)))
    /\ Clause(t, "operands-unchanged", r.same)
    /\ Clause(t, "result-has-no-outlet", r.cleared)
+   \* the hole-filled area of a catchment contains its area - also for the result of + and -
+   /\ Clause(t, "filled-area-of-sum-contains-its-area", ToSet(r.add) \subseteq ToSet(r.addf))
+   /\ Clause(t, "filled-area-of-difference-contains-its-area", ToSet(r.sub) \subseteq ToSet(r.subf))
 ASSUME \A t \in 1..Len(TLog) : Accept(t) \/ TRUE
 ASSUME PrintT(<<"VALIDATED", Len(TLog)>>)
 ===============================================================================
